@@ -185,6 +185,11 @@ structure Layout where
 def Layout.pinned : Layout := ⟨false, false⟩
 def Layout.fixed : Layout := ⟨true, true⟩
 
+/-- The store order of the code as it is now (ampl/mp 208050e: `stop_ = 0` before the `signal()` calls; 47cb42b:
+    `handler_ = 0; data_ = d; handler_ = h`).  `checks/c15.py` reads the order off the real code (hook names) on every
+    run, runs the model with the order it observed and reports a violation if that is not this one. -/
+def Layout.current : Layout := Layout.fixed
+
 inductive Macro
   | ctor | reg (h d : Nat) | work | dtor
   deriving DecidableEq, Repr
